@@ -102,6 +102,7 @@ static sqfs_istream_t g_strm = { .get_filename = env_get_filename };
 static unsigned int g_full_reads;	/* complete transfers delivered */
 static unsigned char g_last_typeflag;	/* of the last 512-byte record */
 static int g_stream_failed;		/* an error / short count was returned */
+static unsigned int g_read_calls;
 
 /* fill n bytes with environment-chosen values: all of them when the buffer
  * is small, one arbitrary witness byte otherwise (the rest of a fresh
@@ -131,18 +132,32 @@ sqfs_s32 sqfs_istream_read(sqfs_istream_t *strm, void *data, size_t size)
 	VERIF_ASSERT(size <= 0x7FFFFFFF && VERIF_W_OK(data, size),
 		     "C07.istream_read.pre");
 
+#ifdef ENV_MAX_READS
+	/* bound of a `bounded` harness: the path ends after ENV_MAX_READS
+	 * read calls (unwinding assertion of the caller's loop holds) */
+	++g_read_calls;
+	VERIF_ASSUME(g_read_calls <= ENV_MAX_READS);
+#endif
 	r = verif_nd_int("read.ret");
 	if (r < 0) {
 		g_stream_failed = 1;
 		return r;
 	}
 	VERIF_ASSUME((size_t)r <= size);
-	env_fill(data, (size_t)r);
 	if ((size_t)r == size) {
+		/* `size` is a constant at the header call sites: the fill
+		 * loop has concrete bounds */
+		env_fill(data, size);
 		++g_full_reads;
 		if (size == 512)
 			g_last_typeflag = ((const unsigned char *)data)[156];
 	} else {
+		/* short transfer: one arbitrary witness byte of the prefix */
+		size_t k = verif_nd_size("read.k");
+		uint8_t v = verif_nd_u8("read.v");
+
+		if (k < (size_t)r)
+			((uint8_t *)data)[k] = v;
 		g_stream_failed = 1;
 	}
 	return r;
